@@ -1,10 +1,23 @@
 #!/bin/sh
 # try_one.sh <patch.diff> <ID> [...]: apply the patch to a scratch copy of /repo's package and run the named quick checks on it
+# RENAME=1: additionally rename the locals of every function (upsa/alpha.py) after applying the patch
 P=$(realpath $1); shift
 S=$(mktemp -d -p ${TMPDIR:-/tmp} upsa_try_XXXXXX)
 cp -r /repo/unified_planning $S/ && patch -p1 -s -d $S -i $P || { echo APPLY-FAILED; rm -rf $S; exit 9; }
+if [ -n "$RENAME" ]; then
+/venv/bin/python - $S <<'PY'
+import os, sys
+sys.path.insert(0, '/verif')
+from upsa.alpha import alpha_rename
+for root, _d, files in os.walk(os.path.join(sys.argv[1], 'unified_planning')):
+    if 'generated' in root or '/test' in root: continue
+    for f in files:
+        if f.endswith('.py'):
+            p = os.path.join(root, f); s = open(p).read(); t, _ = alpha_rename(s); open(p, 'w').write(t)
+PY
+fi
 mkdir -p $S/_ev
 for p in "$@"; do
-  UPSA_EVIDENCE_DIR=$S/_ev /verif/check $p --tier quick --repo $S 2>&1 | grep -v "^KNOWN-FINDING" | grep -B1 "^VIOLATION\|ANALYSIS-ERROR\|^$p \[" | grep -v "^--" | cut -c1-330
+  UPSA_EVIDENCE_DIR=$S/_ev /verif/check $p --tier quick --repo $S 2>&1 | grep -v "^KNOWN-FINDING" | grep -B1 "^VIOLATION\|ANALYSIS-ERROR\|^$p \[" | grep -v "^--" | cut -c1-${W:-330}
 done
 rm -rf $S
